@@ -220,8 +220,8 @@ func (fc *FnCtx) generateOnce(res *FuncResult) *Frame {
 			sort.Strings(sites)
 			for _, site := range sites {
 				for k, cl := range spec.MustCalls[site] {
-					env0 := &Env{fc: fc, fr: fr, st: entry, old: entry, vars: vars, pkgName: pkgName}
-					cond, err := fc.evalClause(env0, cl)
+					// the condition is read at the exit (it may mention results and old(...))
+					cond, err := fc.evalClause(post, cl)
 					if err != nil {
 						res.Mismatch = append(res.Mismatch, fmt.Sprintf("mustcall %s: %v", site, err))
 						continue
